@@ -295,6 +295,10 @@ void XMLGrammarPoolImpl::deserializeGrammars(BinInputStream* const binIn)
     // thrown during deserialization.
     JanitorMemFunCall<XMLGrammarPoolImpl>   cleanup(this, &XMLGrammarPoolImpl::cleanUp);
 
+    // The pool stays unlocked while it is loaded (the loaders use the
+    // plain string pool); the stored lock status is applied at the end.
+    bool wasLocked = false;
+
     try
     {
         XSerializeEngine  serEng(binIn, this);
@@ -321,7 +325,7 @@ void XMLGrammarPoolImpl::deserializeGrammars(BinInputStream* const binIn)
         }
 
         //lock status
-        serEng>>fLocked;
+        serEng>>wasLocked;
 
         //StringPool, don't use >>
         fStringPool->serialize(serEng);
@@ -345,9 +349,9 @@ void XMLGrammarPoolImpl::deserializeGrammars(BinInputStream* const binIn)
     // Everything is OK, so we can release the cleanup object.
     cleanup.release();
 
-    if (fLocked)
+    if (wasLocked)
     {
-        createXSModel();
+        lockPool();
     }
 }
 
